@@ -1,7 +1,11 @@
 SPECIFICATION MCSpec
 CONSTANTS
   NumTys = {"i32", "u8", "f64"}
-  Families = {"operand-bool", "operand-str", "logic-int", "cond-nonbool", "arg-count", "arg-type", "field-unknown", "field-dup", "field-drop", "field-access-unknown", "field-type", "name-undeclared", "name-out-of-scope", "match-drop-arm", "match-after-default", "match-dup-arm", "neg-unsigned", "exit-forbidden", "assign-non-local", "redeclare", "recursive-type", "recursive-const", "elem-type", "return-type", "let-type", "assign-type", "fallthrough-after-loop", "match-rename-arm", "name-sibling-scope", "recursive-member"}
+  Families = {"operand-bool", "operand-str", "logic-int", "cond-nonbool", "arg-count", "arg-type", "field-unknown", "field-dup", "field-drop", "field-access-unknown", "field-type", "name-undeclared", "name-out-of-scope", "match-drop-arm", "match-after-default", "match-dup-arm", "neg-unsigned", "exit-forbidden", "assign-non-local", "redeclare", "recursive-type", "recursive-const", "elem-type", "return-type", "let-type", "assign-type", "fallthrough-after-loop", "match-rename-arm", "name-sibling-scope", "recursive-member", "namesake-exit", "namesake-operand", "namesake-return", "namesake-arg", "namesake-let", "namesake-field", "namesake-shadow"}
   MaxMembers = 2
+  NsNames = {"Option", "Verdict", "Result", "String", "bool", "u32", "List", "IpAddr"}
+  NsTys = {"i32"}
+  NsFamilies = {"namesake-exit", "namesake-operand", "namesake-return", "namesake-arg", "namesake-let", "namesake-field", "exit-forbidden", "return-type", "arg-type", "let-type", "operand-str", "cond-nonbool"}
+  RenameTys = {"i32"}
 INVARIANTS SeedWellTyped MutantIllTyped Emit
 CHECK_DEADLOCK FALSE
